@@ -221,10 +221,10 @@ func accessorsIn(v ssa.Value) []string {
 
 // CodecTable is what the codec analysis found; used for the cross-sibling obligations.
 type CodecTable struct {
-	Cases    map[string][]string        // codec key -> tested constants
-	ScaleSet map[string][]string        // codec key -> constants under which ×255 (writer) / ÷255 (reader) happens
-	Types    map[string]CodecType       // codec key -> type
-	AllTypes map[string]bool            // codec key -> accepts every type (no dispatch on the parse path)
+	Cases    map[string][]string          // codec key -> tested constants
+	ScaleSet map[string][]string          // codec key -> constants under which ×255 (writer) / ÷255 (reader) happens
+	Types    map[string]CodecType         // codec key -> type
+	AllTypes map[string]bool              // codec key -> accepts every type (no dispatch on the parse path)
 	Kinds    map[string]map[string]string // codec key -> const -> wire kind
 }
 
@@ -559,7 +559,9 @@ func hdr1Build(e *Env, ct CodecType, tagField, bufField *types.Var) {
 		e.R.Failf("anchor %s not found", pconstruct)
 		return
 	}
-	props := literalSites(pf, func(t *types.Named) bool { return t.Obj().Name() == "ScalarProperty" && t.Obj().Pkg().Path() == PlyPath })
+	props := literalSites(pf, func(t *types.Named) bool {
+		return t.Obj().Name() == "ScalarProperty" && t.Obj().Pkg().Path() == PlyPath
+	})
 	// order of the literals in the returned slice: by the constant index they are stored at
 	type ent struct {
 		idx  int64
